@@ -5,6 +5,7 @@ import (
 	"flag"
 	"fmt"
 	"math/rand"
+	"strings"
 	"sync"
 	"time"
 
@@ -54,6 +55,52 @@ drop_key(nosuch)
 var parseSources = []string{"x = 1 + 2 * 3\nif x { y = [1, {\"a\": x}] }", "for i = 0; i < 3; i = i + 1 { f(i) }", "x = (1 + ] 2", "a = \"abc", "-0x",
 	"grok(_, \"%{WORD:w}\")\nadd_key(k, w)", "x = a[1:2:3]\ny = b.c.d\nz = `q r`", ""}
 
+// freshSource builds a source text never parsed before in this process: unique identifiers, numbers and strings, and
+// keywords in a random letter case (cold paths: first-use initialisation, caches and memo tables are exercised concurrently).
+var keywordWords = []string{"if", "elif", "else", "for", "in", "break", "continue", "true", "false", "nil", "null"}
+
+func freshSource(rng *rand.Rand, uniq int) string {
+	kw := func(w string) string {
+		b := []byte(w)
+		for i := range b {
+			if rng.Intn(2) == 0 {
+				b[i] -= 32
+			}
+		}
+		return string(b)
+	}
+	id := func(p string) string { return fmt.Sprintf("%s%d_%d", p, uniq, rng.Intn(1000)) }
+	x, y, f := id("x"), id("y"), id("f")
+	parts := []string{
+		fmt.Sprintf("%s %s == %s { %s = %s } %s %s < %d { %s = [%d, {\"k%d\": %s}] } %s { %s = %s }", kw("if"), x, kw("true"), y, kw("nil"),
+			kw("elif"), x, rng.Intn(1<<30), y, uniq, uniq, x, kw("else"), y, kw("false")),
+		fmt.Sprintf("%s i = 0; i < %d; i = i + 1 { %s i == 1 { %s }\n%s }", kw("for"), 2+rng.Intn(5), kw("if"), kw("continue"), kw("break")),
+		fmt.Sprintf("%s v %s [%d, \"s%d\", %s] { %s(v) }", kw("for"), kw("in"), uniq, uniq, kw("null"), f),
+		fmt.Sprintf("%s = %s[%d:%d]\n%s = `q %d`.b", x, y, rng.Intn(3), 3+rng.Intn(3), y, uniq),
+		fmt.Sprintf("grok(_, \"%%{WORD:w%d}\")\nadd_key(k%d, %d.5e%d)", uniq, uniq, uniq, rng.Intn(5)),
+	}
+	rng.Shuffle(len(parts), func(i, j int) { parts[i], parts[j] = parts[j], parts[i] })
+	src := strings.Join(parts[:1+rng.Intn(len(parts))], "\n")
+	switch rng.Intn(8) { // some sources are broken
+	case 0:
+		src += "\n" + x + " = (1 + ] 2"
+	case 1:
+		src += "\n" + y + " = \"abc"
+	}
+	return src
+}
+
+// canonical rendering of what parsing returned (tree or error)
+func parseRender(name, src string) string {
+	ss, err := parser.ParsePipeline(name, src)
+	if err != nil {
+		return "error: " + err.Error()
+	}
+	tree, _ := convScript(src, ss)
+	b, _ := json.Marshal(tree)
+	return string(b)
+}
+
 // canonical result of one run of the shared main script on a private point
 func sharedRun(sc *plruntime.Script, msg string, sig plruntime.Signal) string {
 	pt := input.GetPoint()
@@ -92,7 +139,8 @@ func raceRun(args []string) (any, error) {
 		want[m] = sharedRun(sc, m, nil)
 	}
 	sum := &Summary{Extra: map[string]any{}}
-	runs, parses := 0, 0
+	runs, parses, nfresh := 0, 0, 0
+	var parsed [][2]string
 	for r := 0; r < *rounds; r++ {
 		g := 2 + rng.Intn(*maxG-1)
 		var wg sync.WaitGroup
@@ -102,6 +150,11 @@ func raceRun(args []string) (any, error) {
 			kind := rng.Intn(3)
 			msg := msgs[rng.Intn(len(msgs))]
 			src := parseSources[rng.Intn(len(parseSources))]
+			fresh := rng.Intn(2) == 0
+			if fresh {
+				nfresh++
+				src = freshSource(rng, nfresh)
+			}
 			delay := time.Duration(rng.Intn(200)) * time.Microsecond
 			wg.Add(1)
 			go func(i int) {
@@ -109,10 +162,11 @@ func raceRun(args []string) (any, error) {
 				<-start
 				time.Sleep(delay)
 				if kind == 0 {
-					_, _ = parser.ParsePipeline(fmt.Sprintf("p%d", i), src)
+					got := parseRender("p.p", src)
 					_, _ = engine.ParseScript(map[string]string{"s": src}, funcs.FuncsMap, funcs.FuncsCheckMap)
 					mu.Lock()
 					parses++
+					parsed = append(parsed, [2]string{src, got})
 					mu.Unlock()
 					return
 				}
@@ -127,11 +181,19 @@ func raceRun(args []string) (any, error) {
 		}
 		close(start)
 		wg.Wait()
+		// every concurrent parse returned what the same parse returns alone (sources were first seen concurrently)
+		for _, pr := range parsed {
+			if alone := parseRender("p.p", pr[0]); alone != pr[1] {
+				sum.miss("race-parse:"+pr[0], map[string]any{"source": pr[0], "alone": alone, "concurrently": pr[1], "goroutines": g})
+			}
+		}
+		parsed = parsed[:0]
 		sum.Evaluations++
 	}
 	sum.Distinct = sum.Evaluations
 	sum.Extra["runs"] = runs
 	sum.Extra["parses"] = parses
+	sum.Extra["fresh_sources"] = nfresh
 	sum.sample(map[string]any{"shared_script": sharedScripts["main.p"][:120], "result_alone": want["abc 12"]})
 	return sum, nil
 }
